@@ -104,7 +104,9 @@ def rule_declarations(ctx):
                 continue
             v = sym.Eval(fx, inline_depth=0).function(bb[0])
             if src:
-                ok = v == ("upd", ("acc", ("call", "IndexSet::new", ())), "extend", (("call", "AnnotatedFormula::" + meth, (("each", ("place", src)),)),))
+                from .. import leaves as _lv
+                L_ = _lv.norm(("place", src))
+                ok = _lv.canon_union(v) == (L_, ("call", "AnnotatedFormula::" + meth, (("at", L_),)))
             else:
                 ok = v == ("call", "Formula::" + meth, (("place", "self.formula"),))
             n += 1
